@@ -3,6 +3,7 @@ package props
 import (
 	"fmt"
 	"os"
+	"sort"
 	"strings"
 	"sync/atomic"
 	"time"
@@ -10,6 +11,7 @@ import (
 	eval "github.com/onheap/eval"
 
 	"verifmc/drive"
+	"verifmc/ref"
 	"verifmc/rep"
 	"verifmc/sx"
 	"verifmc/term"
@@ -63,7 +65,10 @@ func newC06Worker() *c06worker {
 	return w
 }
 
-type c06fetch struct{ x, u interface{}; avail bool }
+type c06fetch struct {
+	x, u  interface{}
+	avail bool
+}
 
 func (f *c06fetch) Get(k eval.VariableKey, s string) (eval.Value, error) {
 	if s == "x" {
@@ -181,7 +186,7 @@ func c06(r *rep.Run) {
 		tokLen, chLen = 6, 7
 		r.SetBudget(2400e9)
 	}
-	r.Rule = "every token sequence up to the length bound over a 22-token alphabet (parens, brackets, comma, ints, string, registered/unregistered identifiers, builtin/custom operators, !-forms, keywords, comments, valid and bogus directives) and every character string up to the bound over 18 characters (incl. 2- and 3-byte letters and U+00A0), each under {prefix,infix} x {undefined variables off,on}; identifiers and string literals spelled like the engine's own markers/keywords (fi, if, eventNode, DNE, ...) in operand positions of 11 templates; every truncation / single-token deletion / duplication / adjacent swap of every valid corpus program; scaled shapes. For every text that compiles: Dump, DumpTable(both), Eval, TryEval(all cached / nothing cached) under bindings of every supported type incl. lists, pre-built sets and nil, in all three event modes; oracle = no panic, exactly one of (program,error), LOOP positions strictly increasing. non-trivial = texts that compile"
+	r.Rule = "every token sequence up to the length bound over a 22-token alphabet (parens, brackets, comma, ints, string, registered/unregistered identifiers, builtin/custom operators, !-forms, keywords, comments, valid and bogus directives) and every character string up to the bound over 18 characters (incl. 2- and 3-byte letters and U+00A0), each under {prefix,infix} x {undefined variables off,on}; identifiers and string literals spelled like the engine's own markers/keywords (fi, if, eventNode, DNE, ...) in operand positions of 11 templates; every builtin name and alias applied to 0..3 operands of every kind (variable, int, string, list, bool), prefix and call syntax; Eval/TryEval/package-level Eval through the contexts the library builds itself under every pair of variable keys from {-32767..32767 boundary values}; every truncation / single-token deletion / duplication / adjacent swap of every valid corpus program; scaled shapes. For every text that compiles: Dump, DumpTable(both), Eval, TryEval(all cached / nothing cached) under bindings of every supported type incl. lists, pre-built sets and nil, in all three event modes; oracle = no panic, exactly one of (program,error), LOOP positions strictly increasing. non-trivial = texts that compile"
 	r.Assume = []string{"fetchers and operators supplied by the harness are well behaved (total, deterministic)",
 		"hangs are detected by the watchdog (no progress on one input for 180 s), never by a short wall-clock bound"}
 	r.Cov["bounds"] = map[string]int{"token_seq_len": tokLen, "char_string_len": chLen}
@@ -248,10 +253,10 @@ func c06(r *rep.Run) {
 	r.Sample(4, map[string]interface{}{"token_sequence": "( if x 1 -1 )"})
 	// focused alphabets, longer sequences: operator/operand/call shapes of one notation
 	type focus struct {
-		name  string
-		toks  []string
-		max   int
-		cfgs  []int
+		name string
+		toks []string
+		max  int
+		cfgs []int
 	}
 	focusMax := 7
 	if r.Thorough() {
@@ -438,6 +443,114 @@ func c06(r *rep.Run) {
 			}
 		}
 		r.Cov["marker_named_texts"] = n
+	}
+
+	// (f) every builtin operator name and alias x 0..3 operands of every kind
+	{
+		var names []string
+		for n := range ref.Alias {
+			names = append(names, n)
+		}
+		sort.Strings(names)
+		atoms := []string{"x", "1", "\"s\"", "(1 2)", "true"}
+		var texts int64
+		r.ParallelFor(len(names), func(w, i int) {
+			name := names[i]
+			word := name[0] >= 'a' && name[0] <= 'z'
+			for cnt := 0; cnt <= 3; cnt++ {
+				idx := make([]int, cnt)
+				for {
+					ops := make([]string, cnt)
+					for k, a := range idx {
+						ops[k] = atoms[a]
+					}
+					prefix := "(" + strings.TrimSpace(name+" "+strings.Join(ops, " ")) + ")"
+					r.Note(w, prefix)
+					for ci, c := range c06cfgs {
+						if !c.infix {
+							c06One(r, ws[w], prefix, ci, &st, true)
+							atomic.AddInt64(&texts, 1)
+						} else if word {
+							c06One(r, ws[w], name+"("+strings.ReplaceAll(strings.ReplaceAll(strings.Join(ops, ", "), "(1 2)", "[1 2]"), "  ", " ")+")", ci, &st, true)
+							atomic.AddInt64(&texts, 1)
+						}
+					}
+					k := cnt - 1
+					for ; k >= 0; k-- {
+						idx[k]++
+						if idx[k] < len(atoms) {
+							break
+						}
+						idx[k] = 0
+					}
+					if k < 0 {
+						break
+					}
+				}
+			}
+		})
+		r.Cov["builtin_name_x_operand_texts"] = texts
+	}
+
+	// (g) contexts the library builds itself (NewCtxFromVars, package-level
+	// Eval) under every pair of variable keys incl. negative and large ones
+	{
+		keys := []eval.VariableKey{-32767, -256, -2, -1, 0, 1, 2, 255, 256, 257, 32767}
+		srcs := []string{"(+ a b)", "(if (= a 1) b a)", "(and (= a 1) (= b 2))", "(+ a 1)"}
+		var n int64
+		for _, ka := range keys {
+			for _, kb := range keys {
+				if ka == kb {
+					continue
+				}
+				for undef := 0; undef < 2; undef++ {
+					for bound := 0; bound < 4; bound++ { // bit 0: a bound, bit 1: b bound
+						vals := map[string]interface{}{}
+						if bound&1 != 0 {
+							vals["a"] = int64(1)
+						}
+						if bound&2 != 0 {
+							vals["b"] = 2
+						}
+						for _, src := range srcs {
+							cfg := eval.NewConfig()
+							cfg.VariableKeyMap["a"], cfg.VariableKeyMap["b"] = ka, kb
+							if undef == 1 {
+								cfg.CompileOptions[eval.AllowUndefinedVariable] = true
+							}
+							d := map[string]interface{}{"source": src, "keys": fmt.Sprint(cfg.VariableKeyMap), "allow_undefined": undef == 1, "bound": fmt.Sprint(vals)}
+							var e *eval.Expr
+							var err error
+							if p, site := drive.Fence(func() { e, err = eval.Compile(cfg, src) }); p != nil {
+								r.Violate("compile-panic", site, sprintf("Compile(%q) with keys %v panics: %v", src, cfg.VariableKeyMap, p), d)
+								continue
+							}
+							if err != nil {
+								continue
+							}
+							for mode := 0; mode < 3; mode++ {
+								n++
+								p, site := drive.Fence(func() {
+									switch mode {
+									case 0:
+										_, _ = e.Eval(eval.NewCtxFromVars(cfg, vals))
+									case 1:
+										_, _ = e.TryEval(eval.NewCtxFromVars(cfg, vals))
+									default:
+										_, _ = eval.Eval(src, vals, eval.ExtendConf(cfg))
+									}
+								})
+								if p != nil {
+									r.Violate("eval-panic", site, sprintf("%s with the library's own context under keys %v panics: %v (at %s)", []string{"Eval(NewCtxFromVars)", "TryEval(NewCtxFromVars)", "package-level Eval"}[mode], cfg.VariableKeyMap, p, site), d)
+								}
+							}
+						}
+					}
+				}
+			}
+		}
+		st.evals += n
+		r.Cov["library_context_runs"] = n
 	}
 
 	// (e) scaled shapes
